@@ -15,7 +15,7 @@ def rand_tt_float(rng, N, R, dtype, decay=False, cplx=False):
         a = np.array([rng.gauss(0, 1) for _ in range(int(np.prod(shp)))]).reshape(shp)
         if cplx: a = a + 1j * np.array([rng.gauss(0, 1) for _ in range(int(np.prod(shp)))]).reshape(shp)
         if decay:
-            a = a * np.array([2.0 ** (-2 * j) for j in range(shp[2])]).reshape(1, 1, -1)
+            a = a * np.array([(0.25 if decay is True else float(decay)) ** j for j in range(shp[2])]).reshape(1, 1, -1)
         cores.append(torch.tensor(a, dtype=dtype))
     return torchtt.TT(cores)
 
@@ -27,7 +27,7 @@ def rand_ttm_float(rng, M, N, R, dtype, decay=False, cplx=False):
         a = np.array([rng.gauss(0, 1) for _ in range(int(np.prod(shp)))]).reshape(shp)
         if cplx: a = a + 1j * np.array([rng.gauss(0, 1) for _ in range(int(np.prod(shp)))]).reshape(shp)
         if decay:
-            a = a * np.array([2.0 ** (-2 * j) for j in range(shp[3])]).reshape(1, 1, 1, -1)
+            a = a * np.array([(0.25 if decay is True else float(decay)) ** j for j in range(shp[3])]).reshape(1, 1, 1, -1)
         cores.append(torch.tensor(a, dtype=dtype))
     return torchtt.TT(cores)
 
